@@ -97,7 +97,7 @@ class Serializer:
 
         q = '"' + name + '"'
         if isinstance(a, builtin.IntegerAttr):
-            return f"({q} int {a.value.data} {ty_str(a.type)})"
+            return f"({q} int {int(a.value.data)} {ty_str(a.type)})"  # int(): folders may store a Python bool
         if isinstance(a, builtin.FloatAttr):
             t = ty_str(a.type)
             bits = f64_bits(a.value.data) if t == "f64" else f32_bits(a.value.data)
